@@ -17,3 +17,13 @@ Theorem C05_allocate_fresh : forall s o k n e s', ext_ok s -> alloc_ext s o k n 
   start e = next (al s) /\ next (al s') = next (al s) + n /\ Forall (fun e' => edisj e e') (exts s).
 Proof. exact C05_allocate_fresh_l. Qed.
 Print Assumptions C05_allocate_fresh.
+
+(* the lazy flush of a global heap collection (roll-over inside a later variable-length write, Close) and every other
+   write that starts inside a collection's extent ends inside it: the buffer has the size createNewHeap allocated *)
+Theorem C05_gcol_flush_within_extent : forall bp ba sb h o w,
+  let s := reach bp ba sb h in let s' := fst (step s o) in
+  ovf (st s') = false -> In w (wlog (st s')) ->
+  forall e, In e (exts (st s')) -> is_gcol (kind_of e) = true -> start e <= fst w -> fst w < ext_end e ->
+  fst w + snd w <= ext_end e.
+Proof. exact C05_gcol_flush_within_extent_l. Qed.
+Print Assumptions C05_gcol_flush_within_extent.
